@@ -77,7 +77,7 @@ def main():
                 row['confirmed'] = bool(ok) and rc_c == 0 and rc_m == 1
                 det = {}
                 for p in props:
-                    rc, out = sh(['/verif/check', p, '--repo', tree])
+                    rc, out = sh(['/verif/check', p, '--repo', tree, '--no-evidence'])   # never rewrite /verif/evidence from a scratch tree
                     if rc != 0:
                         lines = [l.strip() for l in out.splitlines() if l.strip().startswith(('rule', 'ANALYSIS'))]
                         det[p] = (rc, lines[:2])
@@ -133,7 +133,7 @@ def main():
 def run_checks(tree, props):
     det = {}
     for p in props:
-        rc, out = sh(['/verif/check', p, '--repo', tree])
+        rc, out = sh(['/verif/check', p, '--repo', tree, '--no-evidence'])   # never rewrite /verif/evidence from a scratch tree
         if rc != 0:
             lines = [l.strip() for l in out.splitlines() if l.strip().startswith(('rule', 'ANALYSIS'))]
             det[p] = (rc, lines[:2])
